@@ -1,3 +1,79 @@
-(* Props/C10.v — property C10 (work in progress). *)
+(* Props/C10.v — property C10: the tree editing API obeys its read / write / copy laws.
+   Statements only.  Proofs: Proofs/C10_tree.v (on the C17 segment laws); Spec/C10_spec.v; model: Model/Context.v.
+
+   PARTIAL.  Proved over the heap model of the X12DataNode API, for every heap, node, path and value:
+   - a copy shares no mutable data with its original: everything reachable from the copy was allocated by the copy,
+     its inner parent pointers stay inside it, it looks the same as the original, and deleting or setting values
+     through the copy leaves every original object untouched (set_value: when the copied node had no parent object —
+     the copy's ROOT keeps the original's parent, and a '../' path through it reaches the original tree: proved
+     counterexample);
+   - exists / count / first / select agree whenever select completes;
+   - set_value then get_value returns the value and changes exactly one segment object, inside it exactly the
+     addressed element or component (hypotheses each shown necessary by a proved counterexample: the value does not
+     end in the separator it would be split at; the path still resolves after the write, which holds when the element
+     is not one that segment matching reads — position >= 4).
+   Not proved: add_segment / add_loop / add_node placement in map order, delete_segment, the add_* instances of copy
+   independence.  The check runs random API scripts on model and implementation and applies the laws to the
+   implementation. *)
 From Coq Require Import String.
-From PX.Lib Require Import Base.
+From PX.Lib Require Import Base PyStr.
+From PX.Model Require Import Path Segment Context.
+From PX.Spec Require Import C10_spec.
+From PX.Proofs Require Import C10_tree.
+
+Theorem C10_copy_is_fresh :
+  forall h h' o c, copy_node o h = (h', Ok c) ->
+    heap_extends h h' /\ c = length h /\
+    (forall x, reachable_children h' c x <-> length h <= x < length h') /\
+    (forall x obj, reachable_children h' c x -> x <> c -> nth_error h' x = Some obj ->
+       exists y yo, o_parent obj = RObj y /\ reachable_children h' c y /\ length h <= y /\
+                    nth_error h' y = Some yo /\ In x (o_children yo)).
+Proof. exact copy_is_fresh. Qed.
+Print Assumptions C10_copy_is_fresh.
+
+Theorem C10_copy_looks_the_same :
+  forall h h' o c, heap_wf h -> copy_node o h = (h', Ok c) ->
+    iter_same_as_copy (node_iterate_segments h' c) (node_iterate_segments h o).
+Proof. exact copy_looks_the_same. Qed.
+Print Assumptions C10_copy_looks_the_same.
+
+Theorem C10_delete_in_copy_leaves_original :
+  forall h h' o c x h'' r, copy_node o h = (h', Ok c) -> reachable_children h' c x ->
+    node_delete x h' = (h'', r) -> same_below (length h) h' h''.
+Proof. exact copy_delete_independent. Qed.
+Print Assumptions C10_delete_in_copy_leaves_original.
+
+Theorem C10_set_value_in_copy_leaves_original :
+  forall h h' o c ox x p v h'' r,
+    copy_node o h = (h', Ok c) -> nth_error h o = Some ox -> (forall y, o_parent ox <> RObj y) ->
+    reachable_children h' c x -> node_set_value x p v h' = (h'', r) -> same_below (length h) h' h''.
+Proof. exact copy_set_value_independent. Qed.
+Print Assumptions C10_set_value_in_copy_leaves_original.
+
+Theorem C10_queries_agree :
+  forall h self p xs, g_all (node_select h self p) = Ok xs ->
+    node_exists h self p = Ok (negb (length xs =? 0)) /\ node_count h self p = Ok (length xs) /\
+    node_first h self p = Ok (hd_error xs).
+Proof. exact queries_agree. Qed.
+Print Assumptions C10_queries_agree.
+
+Theorem C10_set_value_frame :
+  forall self p v h h' r, node_set_value self p v h = (h', r) ->
+    length h' = length h /\
+    forall o, (forall key, value_target h self p <> Ok (Some (o, key))) -> nth_error h' o = nth_error h o.
+Proof. exact set_value_frame. Qed.
+Print Assumptions C10_set_value_frame.
+
+(* set then get: for an element from position 4 on (segment matching never reads those), of a segment with at least
+   three elements, with a value that does not end in the separator it would be split at *)
+Theorem C10_set_then_get :
+  forall h h' self p v tgt key ox sd i cj,
+    node_set_value self p v h = (h', Ok tt) ->
+    value_target h self p = Ok (Some (tgt, key)) ->
+    nth_error h tgt = Some ox -> o_seg ox = Some sd ->
+    refdes_pos (xg_s (sd_x sd)) key i cj ->
+    C10_spec.value_ok (xg_d (sd_x sd)) (xg_s (sd_x sd)) i cj v ->
+    3 <= i -> 3 <= seg_len (xg_s (sd_x sd)) ->
+    node_get_value h' self p = Ok (Some v).
+Proof. exact set_then_get_from_04. Qed.
+Print Assumptions C10_set_then_get.
